@@ -358,6 +358,8 @@ impl<Aux> Vm<'_, Aux> {
                     trace.push(t);
                 }
                 for t in stack.iter_backwards() {
+                    #[cfg(feature = "verif-hooks")]
+                    crate::verif_hooks::record_error_chain_addr(t.src_instr_ptr as u64);
                     if let Some(t) = program.trace.get(&t.src_instr_ptr) {
                         trace.push(t.clone())
                     }
